@@ -5,9 +5,13 @@ import itertools
 from .common import *
 
 # per write of the cached connection: 1 success, 0 failure, p failure after a partial write (the peer took the first
-# third), c failure "use of closed network connection" (closed on this side)
+# third), c failure "use of closed network connection" (closed on this side), t / r / e / d failure with ETIMEDOUT /
+# ECONNRESET / EPIPE / deadline exceeded
 SCRIPTS = ["none", "s:111", "s:011", "s:001", "s:000", "s:101", "s:110", "s:100", "s:010",
-           "s:p11", "s:pp1", "s:c11", "s:cc1", "s:1p1", "s:1c1", "s:pc1"]
+           "s:p11", "s:pp1", "s:c11", "s:cc1", "s:1p1", "s:1c1", "s:pc1",
+           # the error a failed write comes back with is not always the same: ETIMEDOUT of a peer that vanished (t), ECONNRESET
+           # (r), EPIPE (e), an expired write deadline (d) - the same send falls back to a fresh connection in every case
+           "s:t11", "s:tt1", "s:1t1", "s:r11", "s:e11", "s:d11", "s:td1"]
 
 def generate(seed, tier):
     g = Gen(seed)
